@@ -13,6 +13,7 @@ import IxpeVerif.Model.Polarization
 import IxpeVerif.Model.Ephemeris
 import IxpeVerif.Model.Additivity
 import IxpeVerif.Model.Sampler
+import IxpeVerif.Model.IrfName
 /-! Dispatcher of the hand-written models for the line-protocol driver.  Integers travel in decimal. -/
 namespace Driver
 
@@ -108,6 +109,9 @@ def column {β : Type} (files : List (List β)) (j : Nat) : List β := files.fil
 def fpairs : List Int → List (Float × Float)
   | a :: b :: rest => (fbits a, fbits b) :: fpairs rest
   | _ => []
+
+def codesOf (w : String) : List Nat := if w == "-" then [] else w.toList.map Char.toNat
+def strOf (l : List Nat) : String := String.ofList (l.map Char.ofNat)
 
 def rowsOf : List Int → List EvL.Row
   | t :: s :: f :: g :: rest => ⟨t, s, f != 0, g.toNat⟩ :: rowsOf rest
@@ -252,6 +256,15 @@ def step (ws : List String) : String :=
     let nodes := fpairs (ints nd)
     showFs ((ints us).map fun u => Sampler.ppf nodes (fbits u)) ++ " | " ++ showFs ((ints xs).map fun x => Sampler.cdf nodes (fbits x)) ++ " | " ++
       (if Sampler.negative nodes then "1" else "0") ++ " | " ++ showFs ((Sampler.ppfNodes nodes).flatMap fun p => [p.1, p.2])
+  -- irfname <base> <du> <type> <intent> <version> <simple> <gray> <weightnames,> <simpletypes,> <graytypes,>
+  | ["irfname", base, du, typ, intent, ver, sflag, gflag, wn, st, gt] =>
+    let spl := fun (w : String) => (w.splitOn ",").filter (· ≠ "") |>.map codesOf
+    let k : IrfName.Consts := ⟨spl wn, spl st, spl gt⟩
+    match IrfName.fileName k (codesOf base) du.toNat! (codesOf typ) (codesOf intent) ver.toNat! (sflag == "1") (gflag == "1") with
+    | .ok f => "ok " ++ strOf f
+    | .error .simpleType => "err simpleType"
+    | .error .simpleIntent => "err simpleIntent"
+    | .error .grayType => "err grayType"
   | ["pikey", pi] => showInts [piKey pi.toInt!]
   | ["split", t] => let r := EvL.splitTime t.toInt!; showInts [r.1, r.2]
   | _ => "bad-op"
